@@ -79,6 +79,11 @@ func c12common(c *h.Ctx, name string, in, out []orb.Point, what string) bool {
 		c.Fail("", "closed input did not stay closed", d())
 		return false
 	}
+	if len(in) >= 2 && len(out) < 2 {
+		// the first and the last vertex are two positions of the input, also when they are the same point
+		c.Fail("", "first and last vertex not both kept (an input of two or more vertices came back as one)", d())
+		return false
+	}
 	return true
 }
 
@@ -150,6 +155,14 @@ func c12genLine(r *h.Rand) orb.LineString {
 	}
 	if len(ls) > 2 && r.P(1, 6) {
 		ls[len(ls)-1] = ls[0] // coincident endpoints
+	}
+	if r.P(1, 16) {
+		// astronomically large but finite coordinates (squares and areas stay far below the float64 range)
+		k := math.Pow(10, float64(r.Range(19, 60)))
+		for i := range ls {
+			ls[i] = orb.Point{ls[i][0] * k, ls[i][1] * k}
+		}
+		return ls
 	}
 	if r.P(1, 6) {
 		// projected-metre scale: large offsets, long chords
